@@ -177,12 +177,17 @@ def Cb.call (dones : Dones) (c : Call) : Cb → Ext → Res
   | .eval id freq nc nt best onBest after, x =>
     match c with
     | .trainingStart num =>
-      -- inherited `EventCallback._on_training_start`: only `self.callback` (= after-eval child)
+      -- `EventCallback._on_training_start` (the after-eval child), then the on-new-best child
       let r := after.call dones c x
-      { cb := .eval id freq nc num best onBest r.cb, ext := r.ext, ok := true, evs := r.evs, fail := r.fail }
+      let r' := onBest.call dones c r.ext
+      { cb := .eval id freq nc num best r'.cb r.cb, ext := r'.ext, ok := true, evs := r.evs ++ r'.evs,
+        fail := r.fail || r'.fail }
     | .updateLocals _ =>
+      -- `update_child_locals`: the after-eval child, then the on-new-best child
       let r := after.call dones c x
-      { cb := .eval id freq nc nt best onBest r.cb, ext := r.ext, ok := true, evs := r.evs, fail := r.fail }
+      let r' := onBest.call dones c r.ext
+      { cb := .eval id freq nc nt best r'.cb r.cb, ext := r'.ext, ok := true, evs := r.evs ++ r'.evs,
+        fail := r.fail || r'.fail }
     | .step num =>
       if evalDue freq (nc + 1) then
         -- `evaluate_policy(...)`: the next mean reward of the external stream
